@@ -16,7 +16,8 @@ from valida.schema import Schema, write_tree_html
 warnings.simplefilter("ignore")
 
 SENTINELS = ["<zq7>", "&zq7;", '"zq7"', "'zq7'", "</zq7>", "<b>x</b>", "a & b", "x < y > z"]
-TICKS = ["`code`", "a `b` c `d`", "`unclosed", "`multi\nline`", "``", "`<i>`", "no ticks", "`a` `"]
+TICKS = ["`code`", "a `b` c `d`", "`unclosed", "`multi\nline`", "``", "`<i>`", "no ticks", "`a` `",
+         "`a\rb`", "`a\x0bb` `c`", "`\x85`", "`a b`", "`a\n`b`", "`a\u2028b`"]
 
 
 def user_text(r):
